@@ -184,6 +184,26 @@ func c20One(c *Ctx, fields [][2]int, v c20variant, local map[string]int64) {
 		fail("ColumnNames changed the statement")
 		return
 	}
+	// pure function of the statement: an earlier answer (or a caller editing
+	// the returned slice) must not influence the answer for a changed statement
+	if len(got) > 0 {
+		got[0] = "~edited-by-caller~"
+	}
+	sel.OmitTime = !v.omitTime
+	if v.timeAlias == "" {
+		sel.TimeAlias = "later"
+	} else {
+		sel.TimeAlias = ""
+	}
+	fresh, _, _, _, _ := parseQuery1(text)
+	fsel := fresh.(*influxql.SelectStatement)
+	fsel.OmitTime, fsel.TimeAlias = sel.OmitTime, sel.TimeAlias
+	var again, want2 []string
+	mon.Try(func() { again, want2 = sel.ColumnNames(), fsel.ColumnNames() })
+	if strings.Join(again, "\x00") != strings.Join(want2, "\x00") {
+		r.Violation("column-names", det(fmt.Sprintf("not a pure function of the statement: after changing OmitTime / TimeAlias the statement answers %q, an identical fresh statement answers %q", again, want2)))
+		return
+	}
 	local["ok"]++
 }
 
